@@ -22,6 +22,11 @@ var tokenLSS = token.LSS
 var tokenADD = token.ADD
 var tokenSUB = token.SUB
 var tokenQUO = token.QUO
+var tokenLEQ = token.LEQ
+var tokenGTR = token.GTR
+var tokenGEQ = token.GEQ
+var tokenMUL = token.MUL
+var tokenNEQ = token.NEQ
 var tokenREM = token.REM
 
 // constValue returns the value of the constant with the
